@@ -126,6 +126,9 @@ fn check_scored(n: &Nucleo<u32>, pid: usize, total: usize, dbg: u32, restarted: 
         }
         k += 1;
     }
+    if dbg & 1 != 0 {
+        check!(s.item_count() >= published, "C19 a tick that reports 'not running' accounts for every item whose push completed before the call");
+    }
     if restarted {
         // (a failed check cuts the path under Kani, so the same fact is asserted under ONE property per
         // instance: instances with a restart speak for C12, the others for C06 / C07)
